@@ -7,6 +7,7 @@
 mod alpha;
 mod astobs;
 mod compobs;
+mod cksumobs;
 mod crashobs;
 mod descobs;
 mod input;
@@ -66,6 +67,7 @@ fn main() {
             "desc" => descobs::run_case(&u, &case),
             "compile" => compobs::run_case(&u, &case),
             "crash" => crashobs::run_case(&u, &case),
+            "cksum" => cksumobs::run_case(&u, &case),
             "translate" => transobs::run_case(&u, &case),
             _ => {
                 eprintln!("unknown command {}", cmd);
